@@ -110,6 +110,8 @@ _BUILTIN_CLASSES = [
     ("partial", ("object",)),
     ("weakref", ("object",)),
     ("coroutine", ("object",)),
+    ("Protocol", ("object",)),
+    ("Enum", ("object",)),
 ]
 
 
